@@ -25,8 +25,7 @@ func (c *fnCtx) resolveCallee(cc *ssa.CallCommon) calleeInfo {
 	var ci calleeInfo
 	ci.sig = cc.Signature()
 	if cc.IsInvoke() {
-		ci.key = ifaceMethodKey(cc.Value.Type(), cc.Method)
-		ci.con = c.g.cs.Funcs[ci.key]
+		ci.key, ci.con = c.g.ifaceContract(cc.Value.Type(), cc.Method)
 		ci.names = []string{"self"}
 		ci.ptypes = []types.Type{cc.Value.Type()}
 		ps := ci.sig.Params()
